@@ -2,14 +2,15 @@
 from vlib import core
 from checks import mergegen as g
 from checks import mergelib as m
+from checks import mergemech
 
 META = {
     "harness_bins": ["nkeval"],
     "extract": "C05.v",
     "model_dir": "c05",
     "technique": "Coq proof that the denotation of a record literal is invariant under permutation of its fields and that of a merge under swapping operands (so export and field listings, functions of the denotation, cannot depend on written order); tie: the interpreter's JSON/YAML/TOML bytes and std.record.{fields,values,to_array} for original vs permuted programs, across two processes",
-    "level_text": "coq/Props/C15.v: for every record literal with distinct field names and every permutation of its fields the elaboration is the same tree (C15_literal_order_irrelevant), and merge is commutative on all well-formed trees (C15_operand_order_irrelevant); in the algebra records are key-sorted so there is no insertion order to leak. Tie to the code: each generated program is evaluated by the interpreter as written, with every literal's fields permuted, and with the operands of every merge swapped; the serializer's JSON, YAML and TOML text and the results of std.record.fields / values / to_array are compared byte for byte (direct oracle), the batch is run in two separate processes (different hash seeds), and the exported tree is compared with the extracted algebra. PARTIAL: cross-process determinism is observed, not proved (a pure model is deterministic by construction); the insertion-ordered IndexMap mechanism of merge.rs (split_ref) is not modelled.",
-    "level_note": "Trusted: Coq kernel; extraction; nkeval; generator. Not modelled: IndexMap insertion order / swap_remove inside merge.rs (covered only by the byte-level comparison on the implementation).",
+    "level_text": "coq/Props/C15.v: for every record literal with distinct field names and every permutation of its fields the elaboration is the same tree (C15_literal_order_irrelevant), and merge is commutative on all well-formed trees (C15_operand_order_irrelevant); in the algebra records are key-sorted so there is no insertion order to leak. Tie to the code: each generated program is evaluated by the interpreter as written, with every literal's fields permuted, and with the operands of every merge swapped; the serializer's JSON, YAML and TOML text and the results of std.record.fields / values / to_array are compared byte for byte (direct oracle), the batch is run in two separate processes (different hash seeds), and the exported tree is compared with the extracted algebra. PARTIAL: cross-process determinism is observed, not proved (a pure model is deterministic by construction). " + mergemech.MECH_TEXT_C15,
+    "level_note": "Trusted: Coq kernel; extraction; nkeval; generator. IndexMap insertion order / swap_remove / split_ref inside merge.rs are modelled in coq/MergeMech/Model.v (a reading of the code, tied by comparing the model's map order with the interpreter's); the hash function of IndexMap and serde's emitters are not modelled (covered by the byte-level comparison on the implementation).",
 }
 
 
@@ -90,13 +91,16 @@ def run(ck):
             ck.sample({"program": g.nickel(e), "permuted": g.nickel(vs[1]), "json": out["json"][4 * i][:200], "listing": out["listing"][4 * i][:200]})
     ck.coverage["programs"] = len(flat)
     ck.coverage["rule"] = "program = record expression (literals, merges, nested) from the mostly-valid stream; 4 variants each (as written, literal fields permuted, merge operands swapped, both); observed: JSON/YAML/TOML text, std.record.fields/fields_with_opts/to_array/values; second run in separate processes; non-trivial = size >= 6"
-    ck.coverage["partial"] = "determinism across processes is observed not proved; IndexMap mechanism not modelled"
+    ck.coverage["partial"] = "determinism across processes is observed not proved"
     ck.trusted += ["extraction: ExtrOcamlBasic only", "harness bin nkeval"]
+    mergemech.run(ck, "C15")      # mechanism level: Props.C15_mech + map-order tie (checks/mergemech.py)
 
 
 def replay(ck, path):
     import json
     obj = json.load(open(path))
+    if obj.get("mech"):
+        return mergemech.replay(ck, obj)
     if not ck.harness(["nkeval"]):
         return
     progs = list(obj["variants"].values())
